@@ -19,6 +19,12 @@ CHECKS = {
  "C18": dict(technique="Coq proof: last-call-wins / append specifications of the fluent builders and client id/election stamping over a model of fluent.go + correspondence via vm_compute",
              text="Theorems for all programs of builder and client calls: every emitted field is the argument of the last call that sets it (append semantics where the code appends), nothing else present; ids 1,2,3,...; op type; election stamp. Model tied to fluent.go by executing generated programs through the real API against a recording stub; aliasing clause checked on the implementation.",
              ref="DESIGN.md 4/C18", note=TB + " The aliasing clause (later builder calls never alter queued messages) has no counterpart in a pure model and is checked on the implementation only."),
+ "C04": dict(technique="Coq proof: gate theorems over the server model for every RIB/state/request + regenerated checkElectionForModify proved equal to the model gate + correspondence via vm_compute",
+             text="Theorems: a request changes the RIB only if one of its operations passes the gate (sender = primary, stamp = its last announcement = highest id, 128-bit); rejected operations are FAILED or end the RPC and leave everything untouched; frame conditions for every input. The gate function itself is regenerated from server.go each run and proved equal to the model's. Server model tied to /repo by differential multi-session scripts.",
+             ref="DESIGN.md 4/C04", note=TB + " Each scripted message is atomic."),
+ "C09": dict(technique="Coq proof: declarative status table proved equal to the server model's behaviour for every state/message + correspondence via vm_compute",
+             text="Theorems: for every server state, live session and message, the RPC ends with exactly the code/reason of the declarative table, answers nothing, leaves RIB/election/other sessions unchanged and removes the session; parameters accepted only for SINGLE_PRIMARY+PRESERVE, first, once, consistent. Tied to /repo by differential scripts over the violation alphabet on up to three sessions.",
+             ref="DESIGN.md 4/C09", note=TB + " Each scripted message is atomic."),
 }
 NA = []
 m = {"version": 1,
